@@ -14,7 +14,9 @@ class C17(Check):
     rule = (
         "Domain: inputs that parse cleanly (pre-check; others excluded and counted): pinned slice of the fixture corpus "
         "of every dialect x {format set (what `sqlfluff format` runs), layout, all}; generated fixtures (half lightly "
-        "mutated) and G-sql valid queries with layout noise (DISTINCT off: F-C05-a/F-C17-b) x the same rule sets. "
+        "mutated) and G-sql valid queries with layout noise (DISTINCT off: F-C05-a) x the same rule sets; one case in "
+        "three (generated) / seven (pinned) runs with runaway_limit 2 or 3 so that the give-up-and-roll-back path of the "
+        "fix loop is exercised. "
         "Oracle: x1 = fix(x) via Linter.lint_string(fix=True)+fix_string; the same on x1 with the same config must "
         "report no change (x2 == x1). Outputs that no longer parse are C13's and are excluded here (the CLI would "
         "refuse to touch them). Non-trivial: the first pass changed the file."
@@ -22,11 +24,17 @@ class C17(Check):
     assumptions = ["fix/format are exercised through the API objects the CLI commands call, raw templater"]
 
     def pinned(self, tier):
-        return fixlib.pinned_slice(tier, ["format", "layout", "all"], 6, 40, offset=2)
+        for i, c in enumerate(fixlib.pinned_slice(tier, ["format", "layout", "all"], 6, 40, offset=2)):
+            if i % 7 == 3:
+                c["rule_configs"] = {"core": {"runaway_limit": 2}}
+            yield c
 
     def strategy(self, tier):
-        return fixlib.fix_case(tier=tier, rules=st.sampled_from(["format", "format", "layout", "all"]),
+        base = fixlib.fix_case(tier=tier, rules=st.sampled_from(["format", "format", "layout", "all"]),
                                kinds=SOFT_KINDS if tier == "quick" else None)
+        # a small runaway_limit makes the fix loop give up (and roll back) on inputs that need several sweeps
+        cfg = st.sampled_from([None, None, None, None, {"core": {"runaway_limit": 2}}, {"core": {"runaway_limit": 3}}])
+        return st.tuples(base, cfg).map(lambda t: dict(t[0], rule_configs=t[1]) if t[1] else t[0])
 
     def examples(self, tier):
         return 45 if tier == "quick" else 2000
@@ -36,6 +44,8 @@ class C17(Check):
 
     def run_case(self, case):
         out = Outcome(labels=fixlib.base_labels(case))
+        if case.get("rule_configs"):
+            out.label("runaway_limit:%s" % case["rule_configs"].get("core", {}).get("runaway_limit"))
         run = fixlib.FixRun(case, require_clean=True)
         if run.excluded:
             out.excluded = run.excluded
@@ -67,9 +77,32 @@ class C17(Check):
                 alone.append(r)
         rule = "+".join(alone) if alone else "combo:" + "+".join(cands)
         off = fixlib.first_diff(run.fixed, two.fixed)
-        where = fixlib.construct_at(run.tree, off) if run.tree.raw == run.fixed else "?"
+        where = fixlib.construct_at(run.tree, off) if run.tree.raw == run.fixed else "source-space-fix"
+        # does it settle, or do two rules undo each other for ever?
+        three = two.second()
+        if three.excluded:
+            third = "excluded"
+        elif not three.changed:
+            third = "settles-after-2"
+        elif three.fixed == run.fixed:
+            third = "2-cycle"
+        else:
+            third = "keeps-changing"
+        first = run.fixing_rules()
+        seen = "also-in-pass1" if any(r in first for r in (alone or cands)) else "new-in-pass2"
+
+        # which first-pass rules are needed to get into the unstable state?
+        def still(c):
+            r1 = fixlib.FixRun(c, require_clean=True)
+            if r1.excluded or not r1.changed:
+                return False
+            r2 = r1.second()
+            return not r2.excluded and r2.changed
+
+        cause = fixlib.attribute(case, first, still, limit=12)
         out.fail(f"second pass still changes the text at offset {off}: {run.fixed[max(0, off - 60):off + 60]!r} -> "
-                 f"{two.fixed[max(0, off - 60):off + 60]!r}", clause="not-idempotent", rule=rule, where=where)
+                 f"{two.fixed[max(0, off - 60):off + 60]!r}", clause="not-idempotent", rule=rule, cause=cause,
+                 where=where, third=third, seen=seen)
         return out
 
 
